@@ -31,7 +31,7 @@ def main():
         if not os.path.exists(mp) or (only and sid not in only):
             continue
         meta = json.load(open(mp))
-        if not meta.get("detected"):
+        if not meta.get("detected") or meta.get("retired") or not os.path.exists(os.path.join(sdir, sid, "patch.diff")):
             continue
         items.append(("seed", "seed/" + sid, os.path.join(sdir, sid, "patch.diff"), meta.get("detected_under") or [meta["property"]], None))
     bdir = os.path.join(V, "mutants", "benign")
